@@ -4,6 +4,7 @@ package main
 // and the property predicate (what the peer reads = what was written).
 
 import (
+	"io"
 	"bytes"
 	"fmt"
 	"math/rand"
@@ -378,6 +379,47 @@ func c01(c *h.Ctx) {
 		c.Case(fmt.Sprintf("session/duplex=%v,seg=%d,setchunk=%s,maxlen=%s", duplex, mode, cls(nset), lenClass(maxLen)), rmsgsStr(dirs[0])+"|"+rmsgsStr(dirs[1]), true)
 	}
 
+	// An endpoint that writes while one of its reads is in progress: the transport delivers the peer's stream up to
+	// offset k (anywhere: inside a basic header, a message header, an extended timestamp, a payload), and before it
+	// delivers the rest the endpoint writes a message of its own — what a writer goroutine does while the reader
+	// goroutine waits for the network. The two directions share no data: the messages read are the peer's, the bytes
+	// written are those of a write-only endpoint.
+	{
+		peerMsgs := []rmsg{
+			{cid: 3, ty: 20, sid: 0, ts: 1000, payload: h.LCGBytes(20, 1)},
+			{cid: 4, ty: 9, sid: 1, ts: 0x1000000 + 5, payload: h.LCGBytes(300, 2)},
+			{cid: 4, ty: 9, sid: 1, ts: 0x1000000 + 45, payload: h.LCGBytes(9, 3)},
+			{cid: 63, ty: 8, sid: 1, ts: 33, payload: h.LCGBytes(130, 4)},
+		}
+		own := []rmsg{{cid: 5, ty: 18, sid: 7, ts: 0x2000001, payload: h.LCGBytes(200, 9)}, {cid: 2, ty: 1, sid: 0, ts: 0, payload: []byte{0, 0, 1, 0}}, {cid: 5, ty: 18, sid: 7, ts: 0x2000002, payload: h.LCGBytes(300, 8)}}
+		var peerWire, ownWire bytes.Buffer
+		writeSession(rtmp.NewProtocol(&h.RW{Writer: &peerWire}), peerMsgs)
+		writeSession(rtmp.NewProtocol(&h.RW{Writer: &ownWire}), own)
+		want := make([]string, len(peerMsgs))
+		for i, m := range peerMsgs {
+			want[i] = fmt.Sprintf("%d.%d.%d.%d.%s", m.cid, m.ty, m.sid, m.ts, h.Hex(m.payload))
+		}
+		n := peerWire.Len()
+		var ks []int
+		for k := 1; k < n; k++ {
+			if c.Thorough() || k < 48 || k%7 == 0 || (k > 330 && k < 380) {
+				ks = append(ks, k)
+			}
+		}
+		for _, k := range ks {
+			var out bytes.Buffer
+			var p *rtmp.Protocol
+			rd := &c01HookReader{data: peerWire.Bytes(), k: k}
+			rd.hook = func() { rd.st = writeSession(p, own) }
+			p = rtmp.NewProtocol(&h.RW{Reader: rd, Writer: &out})
+			got, status := readSession(p, len(peerMsgs))
+			in := fmt.Sprintf("the endpoint writes %s after the transport delivered the first %d of %d bytes of the peer's %s and before it delivers the rest", rmsgsStr(own), k, n, rmsgsStr(peerMsgs))
+			c.Hold(status == "ok" && strings.Join(got, ",") == strings.Join(want, ","), "session.roundtrip", h.Trunc(in, 900), h.Trunc(status+" "+strings.Join(got, ","), 3000), h.Trunc("ok "+strings.Join(want, ","), 3000))
+			c.Hold(rd.st == "ok" && bytes.Equal(out.Bytes(), ownWire.Bytes()), "write.independent_of_reads", h.Trunc(in, 900), rd.st+" "+h.Trunc(h.Hex(out.Bytes()), 200), "ok "+h.Trunc(h.Hex(ownWire.Bytes()), 200))
+			c.Case("write-inside-read", fmt.Sprint(k), true)
+		}
+	}
+
 	// fixed regression inputs of repaired defects (F17, F3)
 	regress := [][]rmsg{
 		{{cid: 5, ty: 9, sid: 1, ts: 0, payload: h.LCGBytes(129, 7), desc: "p:129:7"}},                                                                                  // F17
@@ -402,6 +444,33 @@ func c01(c *h.Ctx) {
 		c.Hold(st == "ok" && status == "ok" && strings.Join(got, ",") == strings.Join(want, ","), "session.roundtrip", in, status+" "+h.Trunc(strings.Join(got, ","), 200), "ok "+h.Trunc(strings.Join(want, ","), 200))
 		c.Case("regression", in, true)
 	}
+}
+
+// c01HookReader delivers data[:k], runs hook once (from inside the Read call that would deliver data[k]), then the rest.
+type c01HookReader struct {
+	data []byte
+	pos  int
+	k    int
+	hook func()
+	done bool
+	st   string
+}
+
+func (r *c01HookReader) Read(p []byte) (int, error) {
+	if r.pos == r.k && !r.done {
+		r.done = true
+		r.hook()
+	}
+	if r.pos >= len(r.data) {
+		return 0, io.EOF
+	}
+	end := len(r.data)
+	if r.pos < r.k {
+		end = r.k
+	}
+	n := copy(p, r.data[r.pos:end])
+	r.pos += n
+	return n, nil
 }
 
 func lenClass(n int) string {
